@@ -239,6 +239,19 @@ def case_uniform(fam, rep):
                     "uniform-grid region assembles another matrix than the general region", unit="uniform:matrix", config=(fam, "matrix", n))
         if ru.dV.shape[-1] != 1:
             run.note("uniform=True region stores %s differential volumes" % (ru.dV.shape,))
+        # cell-constant integrands: the integrated values keep a trailing axis of size one and are expanded at assembly
+        le = fem.LinearElastic(E=float(rng.uniform(1, 3)), nu=float(rng.uniform(0.1, 0.4)))
+        lu, lg = fem.SolidBody(le, fu), fem.SolidBody(copy.deepcopy(le), fg)
+        rho = float(rng.uniform(0.5, 2))
+        bf = rng.uniform(-1, 1, F["dim"])
+        for what, a, b in (("linear-elastic-matrix", lu.assemble.matrix(fu), lg.assemble.matrix(fg)),
+                           ("linear-elastic-vector", lu.assemble.vector(fu), lg.assemble.vector(fg)),
+                           ("mass", lu.assemble.mass(rho), lg.assemble.mass(rho)),
+                           ("body-force", fem.SolidBodyForce(fu, values=bf).assemble.vector(), fem.SolidBodyForce(fg, values=bf).assemble.vector())):
+            a, b = a.toarray(), b.toarray()
+            run.compare("reduced.uniform", "family=%s clause=constant-integrand:%s" % (fam, what), maxabs(a - b) / maxabs(b), 1e-12,
+                        "uniform-grid region assembles another %s than the general region" % what, unit="uniform:constant:" + what,
+                        config=(fam, what, n))
     return fn
 
 
@@ -268,7 +281,7 @@ SPEC = {
                        "planestrain:stiffness:quad8", "planestrain:stiffness:quad9", "axisymmetric:energy:quad", "axisymmetric:energy:quad8",
                        "axisymmetric:energy:triangle", "axisymmetric:revolve-convergence", "condensed:u:3d", "condensed:u:planestrain",
                        "condensed:u:axisymmetric", "condensed:p:3d", "condensed:J:3d", "condensed:bulk:1", "condensed:bulk:2", "condensed:bulk:3", "condensed:state:3d", "condensed:restart:3d", "condensed:restart:axisymmetric",
-                       "uniform:vector", "uniform:matrix"],
+                       "uniform:vector", "uniform:matrix", "uniform:constant:linear-elastic-matrix", "uniform:constant:mass", "uniform:constant:body-force"],
     "rule": ("quad4/8/9 ~ hex8/20/27 pairs on undistorted / in-plane distorted / affine meshes with smooth random in-plane states and 4 "
              "materials; axisymmetric forces vs central differences of the oracle-side revolved strain energy on 5 families and vs 360-degree "
              "revolved 3D models with 8/16/32 sectors; condensed vs explicit three-field solutions for bulk 10..5000 in 3D / plane strain / "
